@@ -46,9 +46,15 @@ def run_group(ov, crate, harnesses, env_extra, jobs, log_path, playback=False, o
         cmd += ["--harness", fq(h)]
     tmo = max(h["timeout"] for h in harnesses)
     cmd += ["--harness-timeout", f"{tmo}s"]
+    feats = []
     if scaled:
         # verification-only cargo feature of the mla crate (scaled-down size constants)
-        cmd += ["--features", "mla_verif" if crate == "mla" else "mla/mla_verif"]
+        feats.append("mla_verif" if crate == "mla" else "mla/mla_verif")
+    if env_extra.get("VERIF_API_ONLY") == "1" and crate == "mla":
+        # overlay-only feature: harnesses that name private functions are compiled out
+        feats.append("verif_api_only")
+    if feats:
+        cmd += ["--features", ",".join(feats)]
     if playback:
         cmd += ["-Z", "concrete-playback", "--concrete-playback=print", "--no-memory-safety-checks"]
     else:
